@@ -15,7 +15,13 @@ PROP = {
         "GunYu.Props.C17.gc_newest_is_largest",
         "GunYu.Props.C17.consts_match_source",
         # the preconditions as invariants of the writers (Props/C17Reach.lean)
+        "GunYu.Props.C17.reach_inv",
         "GunYu.Props.C17.reach_good",
+        "GunYu.Props.C17.reach_bare_no_position",
+        "GunYu.Props.C17.reach_session_safe",
+        "GunYu.Props.C17.goodChecks_decide_good",
+        "GunYu.Props.C17.bareChecks_decide_bare",
+        "GunYu.Props.C17.update_real_is_prefix",
         "GunYu.Props.C17.reach_position",
         "GunYu.Props.C17.reach_no_tie",
         "GunYu.Props.C17.reach_updPre_start",
@@ -111,18 +117,28 @@ PROP = {
             "point (relabel-after-failed-relabel-loses-position). "
             "c17sys (the WRITERS as one system, package syncer; Props/C17Reach.lean): traces from an EMPTY target with the REAL code - first start "
             "(syncer.updateCheckpoint through a loopback listener) + RedisOutput.setCheckpoint, then 6-14 steps drawn from: a sender life (real RedisOutput.StartPoint + "
-            "sendAof under virtual time, stream of SELECTs / SETs over 4 databases, txn / pipeline / batch sizes varied, the target dying after a random request), a start "
-            "with the current key / the key a cut rename wrote to / a new key name, RedisOutput.SetRunId, a gc pass (threshold 1 ns / 1 h), each cut after a random "
-            "write request (vfdoubles.Replay of the prefix), a source failover (new master id), a new second id, a crash. After EVERY step: op c17good - the Lean driver "
-            "evaluates the invariant `Good` (Proofs/BookGood.lean: hash entries, strict largest offset, label carries the position alone, field order of the two ids, "
-            "offset-has-run-id, well-formedness, pending rename) on the dumped state for the control state the model's step functions predict and must read the "
-            "position the real GetCheckpointHash + GetCheckpoint read; monitors: a maintenance step / a failover / a new second id never changes that position, a life never "
-            "lowers it (system-step-loses-position), the first position is X0@0 (first-position-unreadable), a complete SetRunId issued at least the entry HSET and the hash "
-            "repointing (setrunid-complete-without-relabel = theorem relabel_len). Op c17w: the checkpoint-key HSETs the real sender executed (MULTI applied at EXEC, database "
-            "tracked through SELECT) vs BookSys.writeReq. Op c17sr (RedisOutput.SetRunId across calls): 1-3 calls of the real SetRunId of ONE RedisOutput under virtual time, "
+            "sendAof under virtual time, stream of SELECTs / SETs over 4 databases, txn / pipeline / batch sizes varied, the target dying after a random request; in half of the "
+            "lives with >= 2 chunks the REAL gc pass - everything written before the session stale - runs on its own connection WHILE the session is alive, between two chunks, "
+            "and the session goes on: the D24 scenario, Reach.session), a start "
+            "with the current key / the key a cut rename wrote to / a new key name (one start in four stopped after its FIRST request: pending rename), RedisOutput.SetRunId, a gc pass "
+            "(threshold 1 ns three times in four / 1 h; favoured when a dry run on a copy says it would delete), each cut after a random "
+            "write request (vfdoubles.Replay of the prefix), a source failover (new master id), a new second id, a crash, and - D27's scenario, Reach.reset / relabelB / gcB / startB / "
+            "reseed - the REAL RedisOutput.ResetStartPoint (complete), after which the state has NO position: SetRunId on it (UpdateCheckpoint's `dbid < 0` branch, cut anywhere), gc, "
+            "start, crash, and RedisOutput.setCheckpoint giving the new history's first position. After EVERY step: op c17good (c17bare on a position-less state) - the Lean driver "
+            "evaluates `goodChecks` (`bareChecks`), the Bool that DECIDES the invariant `Good` (`Bare`) (Proofs/BookGoodB.lean; theorems goodChecks_decide_good / bareChecks_decide_bare: "
+            "every clause incl. CtlOK.l0 / s0 / upk and PendOK.hasrid, the process-alive flag `up` passed by the harness), on the dumped state for the control state the model's step "
+            "functions predict and must read the position the real GetCheckpointHash + GetCheckpoint read (`bare`: none / the -1 placeholder); monitors (a violation = the position is "
+            "LOST, SMALLER or in ANOTHER database; a position that is merely different-but-larger where the model says equal is a difference at tie level, op c17eq): a maintenance step / "
+            "a failover / a new second id never loses or lowers that position, a life never lowers it (system-step-loses-position), a position-less state never reads a position >= 0 "
+            "(position-after-reset), the first position is not below X0 (first-position-unreadable), a complete SetRunId issued at least the entry HSET and the hash "
+            "repointing (tie c17eq relabel-writes>=2 = theorem relabel_len). Op c17life (replaces the self-comparison c17w): the REAL request log of the target double on the sender's "
+            "connection up to the cut / the gc pass (SELECT, MULTI, EXEC, the checkpoint-key HSETs classified by their field names, other commands) is fed to BookSys.lifeReqs (the model tracks "
+            "the executing database through SELECT and applies a MULTI at its EXEC) from the state before the session; the model's fields under the key in every database vs what the double "
+            "REALLY holds there (HGETALL order) - a write the model attributes to another database, loses inside an aborted MULTI or orders differently is a DIFF "
+            "(an HSET of the key with other fields: sender-bookkeeping-write-shape). Op c17sr (RedisOutput.SetRunId across calls): 1-3 calls of the real SetRunId of ONE RedisOutput under virtual time, "
             "error replies planted at the (k+1)-th write request of chosen attempts (k in 0..5, one call in four failing entirely before the hash is repointed): per attempt "
             "the applied requests, per call the return value and the in-memory field, the final position vs BookSys.setRunId; monitors setrunid-calls-lose-position, "
-            "setrunid-nil-without-relabel (a call that returned nil: position readable under [new, other]). "
+            "setrunid-nil-without-relabel (a call that returned nil: position readable under [new, other]); both fire on lost / smaller / other database only. "
             "c17mb (in c17m): the offset the REAL bidirectional start resumes at before the switch (RedisOutput.StartPoint in the namespace's current mode) and after EVERY request "
             "the switch issued (the real resolve re-run + StartPoint in the desired mode), consecutive duplicates removed, vs MigrateNs.bisyncStart / nextStart over the prefixes of "
             "MigrateNs.migrateReqsB (all branches of the switch; refused switches excluded). "
@@ -131,27 +147,29 @@ PROP = {
                 "Go map iteration over INFO keyspace = any order (parameter of the model; the order the real code used is read from the request log)"],
     "assumptions": [
         "replication ids are 40 hex characters (equal length, no '_'): fetchCheckpoint's HasPrefix/Contains field match is modelled as equality of the parsed (run id, suffix) - the harness generates ids of that shape",
-        "the preconditions of the safety theorems (UpdPre / GcPre / Solo: one DB holds the STRICTLY largest offset X >= 0 of the two ids, every numeric field parses, `_runid` fields store their own id, a new key name holds no field of the ids, an orphaned new-id record is a copy, one id alone reads X) are no longer assumed: Props/C17Reach.lean derives them as INVARIANTS of the writers (reach_good) for every state reachable from an EMPTY target by seed / sender lives / starts / SetRunId / gc passes (each stopped after any request) / failovers / crashes, and restates the C17 theorems with reachability as the only hypothesis (reach_start_safe, reach_relabel_safe, reach_gc_safe, reach_gc_spares_label). A tie between two databases (exTie) is unreachable (reach_no_tie). What `Reach` ASSUMES about the environment (stated in its constructors): (1) a sender session replays what Props.C02.Lives assumes of the source stream (LifeHyp: sorted offsets above the stored one, no nested MULTI, SELECT arguments / mapped databases >= 0, the parser does not fail) and the offsets it stores are int64; (2) a new master id / second id was never used on this target before (replication ids are random) and a source failover is learnt while the position is labelled with the current master id (two failovers with no relabel in between leave the position unreadable under the reported ids: outside the model, full resynchronisation); (3) a key name is the current one, the one a cut rename wrote to, or was never used (a name abandoned in the middle of a rename and taken again AFTER the position moved on is outside LocOk; the real code overwrites / outgrows the stale copy); (4) INFO keyspace lists every database holding the key; (5) a sender runs only in a process whose start completed and whose SetRunId returned nil (syncMeta returns the error otherwise); (6) the monitor still checks the preconditions per case on the GENERATED states of c17u / c17g (they are arbitrary, not reachable ones)",
-        "reset + new full sync later in the life of a target (ResetStartPoint + setCheckpoint, C06) is not a step of `Reach`: only the FIRST position is seeded by SetCheckpoint; a target with other syncers' keys / ids beside this one (foreign hash entries) is not modelled in `Reach` (gc_prefix_safe / gc_spares_live_id themselves allow them)",
+        "the preconditions of the safety theorems (UpdPre / GcPre / Solo: one DB holds the STRICTLY largest offset X >= 0 of the two ids, every numeric field parses, `_runid` fields store their own id, a new key name holds no field of the ids, an orphaned new-id record is a copy, one id alone reads X) are no longer assumed: Props/C17Reach.lean derives them as INVARIANTS of the writers (reach_good) for every state reachable from an EMPTY target by seed / sender lives / sender sessions with gc passes running beside them / starts / SetRunId / gc passes (each stopped after any request) / failovers / crashes / ResetStartPoint + SetRunId, gc, start on the position-less state + the next setCheckpoint, and restates the C17 theorems with reachability as the only hypothesis (reach_start_safe, reach_relabel_safe, reach_gc_safe, reach_gc_spares_label). A tie between two databases (exTie) is unreachable (reach_no_tie). What `Reach` ASSUMES about the environment (stated in its constructors): (1) a sender session replays what Props.C02.Lives assumes of the source stream (LifeHyp: sorted offsets above the stored one, no nested MULTI, SELECT arguments / mapped databases >= 0, the parser does not fail) and the offsets it stores are int64; (2) a new master id / second id was never used on this target before (replication ids are random) and a source failover is learnt while the position is labelled with the current master id (two failovers with no relabel in between leave the position unreadable under the reported ids: outside the model, full resynchronisation); (3) a key name is the current one, the one a cut rename wrote to, or was never used (a name abandoned in the middle of a rename and taken again AFTER the position moved on is outside LocOk; the real code overwrites / outgrows the stale copy); (4) INFO keyspace lists every database holding the key; (5) a sender runs only in a process whose start completed and whose SetRunId returned nil (syncMeta returns the error otherwise); (6) the monitor still checks the preconditions per case on the GENERATED states of c17u / c17g (they are arbitrary, not reachable ones)",
+        "reset + new full sync later in the life of a target IS a step of `Reach` (reset / relabelB / gcB / startB / crashB / reseed; invariant `Bare` on the position-less states, reach_bare_no_position: the next start reads no position >= 0 there) with these limits: ResetStartPoint is COMPLETE (a reset cut between its requests is C06's subject: Model/PositionWriters.lean resetCps; not composed here), the process does not rename the key and the source does not fail over between the reset and the next setCheckpoint (the real code goes straight from ResetStartPoint to the snapshot replay), and DelCheckpoints' order (ascending (offset, mtime, db), all records read before the first delete, an unreadable record aborts: BookSys.delCheckpointsReqs) is modelled for the reset and, for the tie, for UpdateCheckpoint's clean-up (BookSys.updateReqsReal: op c17u no longer takes the order from the harness; update_real_is_prefix: it is a prefix of updateReqs for SOME order o2, and the theorems hold for every o2 and every prefix) - `Reach` itself keeps o2 universally quantified. A gc pass beside a session starts between two requests of the sender OUTSIDE a MULTI...EXEC (SchedOK: the target executes a transaction atomically) and the session then continues on its own connection with the database it had selected. A target with other syncers' keys / ids beside this one (foreign hash entries) is not modelled in `Reach` (gc_prefix_safe / gc_spares_live_id themselves allow them)",
         "recovery-format switch: the namespace root checkpoint lives in DB 0 (setCheckpoint / seedBisyncNamespace write it there)",
         "D24's repair keeps <id>_runid/<id>_version of a live id in every DB a gc pass empties of its _offset/_mtime. These two small fields per (id, DB) are never collected, not even when the id dies: DelStaleCheckpoint only visits entries with offset > 0 (the same pre-existing filter never collects the offset -1 placeholder entry UpdateCheckpoint writes for a new id either). A permanent but bounded leak (<= #ids ever live x #DBs visited), not a correctness problem: fetchCheckpoint reads such a record as offset -1, which is never selected as a position (generated: norunid / nooffset records, corpus d24_*); visible effects: the DB stays listed in INFO keyspace, so every start / gc pass keeps visiting it. Collecting them needs the dead-id branch to drop the offset > 0 filter (gc change + model + proof), not done",
         "standalone target double: getDbMap's cluster short-cut ({0:0}) and the cluster client's routing of GetAllCheckpointHash / HDEL are not executed (a change there is invisible to this check)",
         "other writers of the same bookkeeping are outside the property by declaration: the fullsync API's delCheckpoints (cmd/syncer_api.go) and RedisOutput.ResetStartPoint (C06) delete positions on purpose",
-        "one maintenance operation at a time on a target; gc DOES run concurrently with a replaying sender in production: covered sequentially by c17gs (gc between two batches), not as true interleaving inside one request",
+        "one maintenance operation at a time on a target EXCEPT gc beside a replaying sender, which production does run: Reach.session / reach_session_safe interleave gc passes (each cut anywhere) with the requests of a running session, c17sys and c17gs execute it with the real code; two maintenance operations interleaved with each other (gc during a start / SetRunId) are not modelled",
         "foreign DEL / FLUSHDB of a database holding a checkpoint is outside the property (remark: writing <id>_runid/<id>_version with every checkpoint HSET in sendCmdsBatch would make the sender robust against it; not done, sender core unchanged)",
         "a format switch the code REFUSES (no authoritative seed: root checkpoint only - pinned by the repo test TestResolveBisyncCheckpointNameRejectsPlainCheckpointFallback -, or a journal gap) issues no request and leaves the target as it was; the start keeps failing until the configured mode is reverted - counted as migrate_refused, not a loss of position",
     ],
     "partial": [
         "RedisOutput.SetRunId is now modelled as a state machine over the in-memory field (Model/BookSys.lean setRunId / retryLoop / setRunIdCalls: early return, [new, field] passed, field assigned only after a complete attempt, at most three attempts) and proved (Props/C17RunId.lean): on every reachable state any sequence of calls with any fate of the attempts keeps the SAME position readable under the reported ids and the field equal to the label or (hash already repointed by a failed attempt) to the second id (FieldOK); a call that returns nil has relabelled. An attempt is `k write requests applied, then an error or completion`: an error reply to a READ request of an attempt that has nothing to write (hash already repointed) cannot be expressed (the real attempt fails and is retried; harmless) - c17sr plants errors on write requests only",
         "migrate_start_exact / migrate_start_inferred (Props/C17Migrate.lean) prove, for the migration PROPER (stored mode marker, or none and the mode inferred; another recovery family, authoritative seed), that after ANY prefix of the switch's requests - namespace-level ones included (frontier snapshot / latest record seed, journal / slot-key / root clean-up: Model/MigrateNs.lean) - the next bidirectional start (switch re-run to completion into a second drawn name, then bisyncStartPoint in the new mode = C14's Frontier.startLatest / startFrontier) resumes at EXACTLY the offset the start in the old mode resumed at. In-place switches (same recovery family) / namespace creation / refused switches have no theorem on the bidirectional start (c17mb compares the former two with the real code). The model ignores the marker keys (`…:marker:{tag}`) and the UpdateCheckpoint the start runs between resolve and StartPoint (a no-op once the hash maps ids[0] to the resolved name)",
-        "`Reach`'s sender step is the sender model's wire log made concrete (BookSys.lifeReqs); that the REAL sender's log is the model's is C02/C07's tie, not re-checked here beyond the shape of the HSETs (c17w, fact c17_sender_cp_writes) and `Good` on the states real sessions leave (c17good)",
-        "c17good evaluates a Bool transcription of `Good` (Drive/C17.lean goodWhy) - not proved equivalent to the Prop; the freshness clauses (names / ids never used) are ghost state and not evaluated",
+        "`Reach`'s sender step is the sender model's wire log made concrete (BookSys.lifeReqs): c17life ties lifeReqs to the REAL request log (what the double holds after it), fact c17_sender_cp_writes the shape of the HSETs; that the real log is one the sender MODEL produces (LifeHyp: sorted offsets etc.) is C02/C07's tie, not re-checked here beyond `Good` on the states real sessions leave (c17good)",
+        "c17good / c17bare evaluate goodChecks / bareChecks, proved to IMPLY Good / Bare (goodChecks_decide_good / bareChecks_decide_bare; only that direction) given that the dump is the whole state and the freshness clauses (names / ids never used do not occur: ghost state the harness guarantees by drawing new names / ids from counters) hold - those are hypotheses of the theorems, not evaluated",
+        "setRunIdCalls_good / setRunIdCalls_position are about calls that all carry the SAME new id (a second failover between two calls of one RedisOutput is a `failover` step of Reach followed by a fresh sequence; not one theorem)",
+        "migrate_start_exact / migrate_start_inferred keep their own preconditions (MigStartPre): they are not derived from a reachability predicate of the bidirectional writers",
         "gc_spares_newest_of_live_id / gc_passes_exceptNewest are lemmas that restate the definition (kept for the audit, not required); the property's second sentence is gc_spares_live_id (whole gc pass, ANY live id) and, on reachable states, reach_gc_spares_label",
     ],
 }
 
 MANIFEST = {
-    "text": "The preconditions are invariants of the writers: every state reachable from an empty target by sender lives, SetCheckpoint, UpdateCheckpoint (start / SetRunId), gc passes - each stopped after any request -, failovers and crashes satisfies them (Props/C17Reach.lean, the sender's part imported from C02/C07), so the statements below hold on all reachable states; RedisOutput.SetRunId over calls and failed attempts (Props/C17RunId.lean); the bidirectional start resumes at exactly the same offset after any prefix of the recovery-format switch (Props/C17Migrate.lean). "
+    "text": "The preconditions are invariants of the writers: every state reachable from an empty target by sender lives (also with gc passes running beside the live session), SetCheckpoint, UpdateCheckpoint (start / SetRunId), gc passes - each stopped after any request -, failovers, crashes, and ResetStartPoint followed by maintenance on the position-less state and the next SetCheckpoint satisfies them (Props/C17Reach.lean, the sender's part imported from C02/C07), so the statements below hold on all reachable states; RedisOutput.SetRunId over calls and failed attempts (Props/C17RunId.lean); the bidirectional start resumes at exactly the same offset after any prefix of the recovery-format switch (Props/C17Migrate.lean). "
             "Lean theorems for EVERY initial bookkeeping state meeting the stated preconditions, EVERY database iteration order of every loop and "
             "EVERY prefix of the write requests issued: UpdateCheckpoint (rename / re-key), the bidirectional recovery-format switch and stale-checkpoint "
             "gc leave a target on which GetCheckpointHash + GetCheckpoint read the same (switch: a not smaller) offset in the same database; "
